@@ -212,6 +212,19 @@ def run_property(ctx, prop, unary, binary, ternary, rule):
             ar = rng.randint(3, 5)
         ps = [rng.choice(pool) for _ in range(ar)]
         rc.append({"op": op, "srcs": [p[0] for p in ps], "args": [p[1] for p in ps], "text": "(%s %s)" % (op, " ".join(p[0] for p in ps))})
+    # the corners of the exact integer range, every pair and some folds, for every arithmetic operation
+    arith = [o for o in binary if o in ("+", "-", "*", "/", "floor-quotient", "floor-remainder", "max", "min")]
+    if arith:
+        corner = [-2147483648, -2147483647, 2147483647, 2147483646, -1, 1, 0, 2, -2, 65536, -65536, 46341, 46340, -46341, 32768, -32768, 3]
+        cval = lambda n: {"t": "int", "v": n}
+        for op in arith:
+            for a in corner:
+                for b2 in corner:
+                    rc.append({"op": op, "srcs": [str(a), str(b2)], "args": [cval(a), cval(b2)], "text": "(%s %d %d)" % (op, a, b2)})
+        for op in [o for o in ternary if o in ("+", "-", "*", "/")]:
+            for t in ((-32768, 65536, -1), (-65536, 32768, -1), (-1, -32768, 65536), (2147483647, 1, -1), (-2147483648, -1, -1), (46341, 46341, -1), (-2147483648, 1, -1),
+                      (65536, 65536, 0), (2147483647, 2147483647, 2147483647), (-2147483648, -2147483648, 2)):
+                rc.append({"op": op, "srcs": [str(x) for x in t], "args": [cval(x) for x in t], "text": "(%s %s)" % (op, " ".join(str(x) for x in t))})
     # numbers that are distinct but close: neighbouring ratios whose cross products exceed 32 bits, ratios next to their own
     # binary32 image, integers around 2^24 .. 2^31 next to reals - every comparison, both orders, and chains
     cmpops = [o for o in binary if o in ("=", "<", ">", "<=", ">=", "max", "min", "eqv?")]
